@@ -23,6 +23,7 @@ Cap(n) == IF n < PoolCap THEN n ELSE PoolCap
 (* the fixed global preamble (rendered first in <declaration>):  int i; int j = 1; clock x; chan c; broadcast chan b;
    const int N = 2; int a[3]; typedef int[0,2] id_t; bool pos(int v) { return v > 0; }                              *)
 BaseVars == <<"i", "j", "x", "c", "b", "N", "a">>
+SysVars == <<"sysv">>                  \* the system block starts with `typedef int[0,1] sys_t; int sysv;` : declarations there are global too
 BaseFuns == <<"pos">>
 BaseTypes == <<"id_t">>
 
@@ -241,7 +242,7 @@ ExpInst(mm, n) == [name |-> n, templ |-> TemplOf(mm, n),
                    params |-> LET ps == ParamsOf(mm, n) IN [q \in 1..Len(ps) |-> ps[q].name],
                    unbound |-> UnboundOf(mm, n), mapping |-> MappingOf(mm, n)]
 Expected(mm) ==
-    [gvars |-> BaseVars \o Flatten([q \in 1..Len(mm.gdecl) |-> GExtra[mm.gdecl[q]].vs]),
+    [gvars |-> BaseVars \o Flatten([q \in 1..Len(mm.gdecl) |-> GExtra[mm.gdecl[q]].vs]) \o SysVars,
      templates |-> [t \in 1..Len(mm.templs) |-> ExpTempl(mm.templs[t])],
      instances |-> [q \in 1..Len(mm.insts) |-> ExpInst(mm, mm.insts[q].name)],
      processes |-> [q \in 1..Len(mm.procs) |-> ExpInst(mm, mm.procs[q])],
